@@ -57,7 +57,7 @@ def v2_doc(sc, work):
     out_iv = {v: dict(encoding=dict(datatype=t), attributes=dict(long_name=v)) for v, t in [("pid", "i4"), ("X", "f8"), ("Y", "f8"), ("Z", "f8")]}
     doc = dict(version=2,
                time=dict(start=iso(sc["start"]), stop=iso(sc["stop"]), dt=sc["dt"]),
-               forcing=dict(module="ladim.ROMS", filename=os.path.join(work, "f_*.nc" if fv["wildcard"] else first_file(sc))),
+               forcing=dict(module=sc.get("usermod") or "ladim.ROMS", filename=os.path.join(work, "f_*.nc" if fv["wildcard"] else first_file(sc))),
                tracker=dict(advection=fv["adv"]),
                state=dict(particle_variables=dict(release_time="time", **({"farmid": "int"} if fv["extracol"] else {}))),
                release=dict(release_file=os.path.join(work, "r.rls"), names=names(fv), continuous=fv["cont"]),
@@ -67,7 +67,7 @@ def v2_doc(sc, work):
     if fv["cont"]:
         doc["release"]["release_frequency"] = fv["freq"]
     if fv["gridsec"] != "omitted":
-        doc["grid"] = dict(module="ladim.ROMS")
+        doc["grid"] = dict(module=sc.get("usermod") or "ladim.ROMS")
         if fv["gridsec"] == "explicit":
             doc["grid"]["filename"] = os.path.join(work, first_file(sc))
         if fv["subgrid"]:
@@ -91,7 +91,7 @@ def v1_doc(sc, work):
     if fv["cont"]:
         pr["release_type"] = "continuous"
         pr["release_frequency"] = fv["freq"]
-    gf = dict(module="ladim1.gridforce.ROMS", input_file=os.path.join(work, "f_*.nc" if fv["wildcard"] else first_file(sc)))
+    gf = dict(module=sc.get("usermod") or "ladim1.gridforce.ROMS", input_file=os.path.join(work, "f_*.nc" if fv["wildcard"] else first_file(sc)))
     if fv["gridsec"] == "explicit":
         gf["gridfile"] = os.path.join(work, first_file(sc))
     if fv["subgrid"] and fv["gridsec"] != "omitted":
@@ -125,7 +125,7 @@ def project(conf, work):
                 cont=cont, freq=int(rel.get("release_frequency", 0)) if cont else 0, names=list(rel.get("names") or []),
                 state_pvars=sorted((conf.get("state") or {}).get("particle_variables") or {}),
                 out_ivars=sorted(out["instance_variables"]), out_pvars=sorted(out.get("particle_variables") or {}),
-                outper=int(out["output_period"]))
+                outper=int(out["output_period"]), gridmod=base(conf["grid"].get("module", "")), forcemod=base(conf["forcing"].get("module", "")))
 
 
 def run_spellings(sc):
@@ -145,6 +145,13 @@ def run_spellings(sc):
         with open(os.path.join(work, "r.rls"), "w") as f:
             for r in sc["rows"]:
                 f.write(f"{r['mult']} {iso(r['t'])} {r['xf']!r} {r['yf']!r} {r['zf']!r}" + (f" {r['id']}" if fv["extracol"] else "") + "\n")
+        if sc.get("plugmod"):
+            # a user grid/forcing module given by path: a ROMS grid with a narrower valid region.  "Omitting the grid section uses
+            # the forcing module": the stock grid would keep particles alive longer
+            with open(os.path.join(work, "my_roms.py"), "w") as f:
+                f.write("from ladim.ROMS import Forcing, Grid as _G\n\n\nclass Grid(_G):\n    def ingrid(self, X, Y):\n"
+                        "        return super().ingrid(X, Y) & (X < self.xmax - 1.5) & (Y < self.ymax - 1.5)\n")
+            sc = dict(sc, usermod=os.path.join(work, "my_roms.py"))
         docs = []
         for k, (kind, ext) in enumerate((("yaml2", "yaml"), ("toml2", "toml"), ("yaml1", "yaml"))):
             doc = (v1_doc if kind == "yaml1" else v2_doc)(sc, work)
@@ -217,7 +224,8 @@ def scenario(rng):
     i1 = rng.randrange(max(6, base["imax"] - 3), base["imax"])
     j1 = rng.randrange(max(6, base["jmax"] - 3), base["jmax"])
     base["subgrid_v"] = [1, i1, 1, j1]
-    base["cls"] = dict(fv)
+    base["plugmod"] = rng.random() < 0.35
+    base["cls"] = dict(fv, plugmod=base["plugmod"])
     return base
 
 
